@@ -83,8 +83,10 @@ def handleFrame (s : Recv) (f : Frame) : Outcome (Recv × Option DataEv) :=
 def handleReset (s : Recv) (finalSize : Nat) : Outcome Recv :=
   match s.finalSize with
   | some z => if finalSize ≠ z then .error .finalSize
-              else .ok { s with finalSize := some finalSize, finished := true }
-  | none => .ok { s with finalSize := some finalSize, finished := true }
+              else .ok { s with finalSize := some finalSize, finished := true,
+                                highest := max s.highest finalSize }
+  | none => .ok { s with finalSize := some finalSize, finished := true,
+                         highest := max s.highest finalSize }
 
 /-! ## Sender -/
 
